@@ -114,9 +114,52 @@ class StmtMixin:
                 yield s1, NORMAL
             return
         if isinstance(node, ast.Expr) and isinstance(node.value, ast.YieldFrom):
-            # `yield from X`: X is evaluated (its call obligations apply); the delegated items are not inspected
+            # `yield from X`: X is evaluated (its call obligations apply).  Without yield asserts the
+            # delegated items are not inspected; with them every delegated item is checked: the members
+            # of a tuple one by one, the elements of a list under a quantifier.  Anything else is
+            # outside the subset (never passed silently).
+            c = self.m.contracts[self.cur_fn_stack[0]]
             for s1, v in self.ev(node.value.value, st):
-                yield s1, (self.raise_out(v) if isinstance(v, Exc) else NORMAL)
+                if isinstance(v, Exc):
+                    yield s1, self.raise_out(v)
+                    continue
+                if c.yield_asserts:
+                    from .execcall import clause
+                    if isinstance(v.t, TTuple):
+                        items = [tuple_get(v, i) for i in range(len(v.t.elems))]
+                        for it in items:
+                            if getattr(c, 'yield_type', None) is not None:
+                                it = self.coerce(it, c.yield_type)
+                            held = []
+                            for j, e in enumerate(c.yield_asserts):
+                                e2, props = clause(e)
+                                self.clause_props = props
+                                self.prove(s1, self.spec(e2, s1, {'yielded': it}, self.fn_old), 'yield', line, str(j), text=e2,
+                                           stable_name='%s:yield:%d' % (self.cur_fn_stack[0].split(':')[1], j), defer=held)
+                                self.clause_props = None
+                            for g in held:
+                                s1.assume(g)
+                            s1.ghost['__yields__'] = s1.ghost.get('__yields__', 0) + 1
+                    elif isinstance(v.t, TList):
+                        qi = z3.Int(fresh_name('yf'))
+                        it = Val(v.t.elem, z3.Select(list_arr(v), qi))
+                        if getattr(c, 'yield_type', None) is not None:
+                            it = self.coerce(it, c.yield_type)
+                        held = []
+                        for j, e in enumerate(c.yield_asserts):
+                            e2, props = clause(e)
+                            self.clause_props = props
+                            body = self.spec(e2, s1, {'yielded': it}, self.fn_old)
+                            goal = z3.ForAll([qi], z3.Implies(z3.And(0 <= qi, qi < list_len(v)), body))
+                            self.prove(s1, goal, 'yield', line, str(j), text=e2,
+                                       stable_name='%s:yield:%d' % (self.cur_fn_stack[0].split(':')[1], j), defer=held)
+                            self.clause_props = None
+                        for g in held:
+                            s1.assume(g)
+                        s1.ghost['__yields__'] = s1.ghost.get('__yields__', 0) + 1
+                    else:
+                        raise OutOfSubset('yield from %s in a generator with yield asserts' % v.t, node)
+                yield s1, NORMAL
             return
         if isinstance(node, ast.Expr):
             if isinstance(node.value, ast.Constant):
